@@ -1788,6 +1788,7 @@ func body(r *vlib.Run) {
 	modeNotifRand(r)
 	modeHistory(r)
 	modeServer(r)
+	modeConcRemove(r)
 }
 
 func main() {
@@ -1796,14 +1797,14 @@ func main() {
 		Rule: "pairs (exhaustive): every (query, path) over {a,b,*}^<=4 (121 x 121) through the real trie via Update, UpdateOnce and single-update / single-delete UpdateNotification, plus ctree.Query containment on a tree holding the path as a leaf, plus remove / repeated remove / re-add on a node shared with a second client; a pair is distinct non-trivial when both sides are non-empty. " +
 			"fulltrie (exhaustive): all 121 queries in one trie with two clients each, staged removals, every path. " +
 			"notif (exhaustive): every query set of size <= 2 over {a,b,*}^<=3 (thorough <=4) against every notification shape (single update/delete over ^<=3 (thorough ^<=4); ordered pairs UU/UD/DD over ^<=2; triples UUD over ^<=1; thorough also UU pairs over ^<=3) through UpdateNotification with prefix splits and both path encodings; a case is distinct non-trivial when >= 2 (path, entry) combinations agree, i.e. de-duplication had something to do (thorough records a 1/64 systematic sample of them; the full number is counter notif_cases_dedup_needed). " +
-			"notifrand / history / server: seeded random; a notifrand trial counts when it had a notification needing de-duplication and one offered to nobody; a history counts when it contains an offer, a removal on a node shared with another client, a re-registration after removal and a judged silence after removal; a server trial counts when a request has >= 2 paths and at least one notification was streamed and one was not.",
+			"notifrand / history / server: seeded random; a notifrand trial counts when it had a notification needing de-duplication and one offered to nobody; a history counts when it contains an offer, a removal on a node shared with another client, a re-registration after removal and a judged silence after removal; a server trial counts when a request has >= 2 paths and at least one notification was streamed and one was not; concremove: 300 (thorough 6000) trials of concurrent dispatch and unsubscription.",
 		Assumptions: []string{
 			"model.Compat (agreement on every common element, '*' on either side agrees with anything) is the relation of the statement; for a plain match.Update only 'offered or not' is judged, the number of offers only where the notification goes through UpdateOnce / UpdateNotification",
 			"registrations are made the way the server makes them: from a slice whose backing array the caller reuses afterwards",
 			"histories never register a (client, path) pair that is still registered and never call a stale remove function after the pair was registered again (the statement leaves both open)",
 			"server mode: requests whose origins violate the gNMI mixed-schema rules (origin in prefix and path, or path origin below prefix elements; path.CompletePath rejects them) are only judged for at-most-once delivery; the target-delete shape is kept out of the workload (C14); 'offered' is observed as responses sent on the in-memory stream (1 + duplicates), a sentinel notification per target is the barrier; the 90 s watchdog only yields inconclusive",
 			"the end-of-subscription census reads the server's trie by read-only reflection (any map keyed by match.Client reachable from the *match.Match field); counters server_census_available / _unavailable say whether it was available; the same defect class is observed behaviourally at the match level (modes pairs, notif, history: offer-after-remove)",
-			"single goroutine at the match level; the race detector is not used",
+			"modes pairs/fulltrie/notif/history run on a single goroutine; mode concremove runs 2-4 dispatching goroutines while clients unsubscribe and judges, on ticks of one atomic counter, that no callback of a client BEGINS after its remove function has returned and that a bystander with the same paths is still offered; the race detector is not used",
 		},
 		QuickShards: 8, ThoroughShards: 16,
 		MinDistinctQuick: 20000, MinDistinctThorough: 60000,
